@@ -445,6 +445,9 @@ func okParamList(nodes []ast.Node) (*token.Token, bool) {
 	l := len(nodes)
 	log.Debugf("okParamList: %d: %#v", l, nodes)
 	for i, n := range nodes {
+		if n == nil { // parameter that failed to parse, error already recorded.
+			return nil, false
+		}
 		last := i == l-1
 		t := n.Value()
 		if last && t.Type() == token.DOTDOT {
@@ -467,9 +470,13 @@ func (p *Parser) parseLambdaMulti(left ast.Node, more ...ast.Node) ast.Node {
 	}
 	t, ok := okParamList(lambda.Parameters)
 	if !ok {
+		what := "an invalid expression"
+		if t != nil {
+			what = t.Literal()
+		}
 		errLine, lineNum := p.ErrorLine(false)
 		p.errors = append(p.errors, fmt.Sprintf("%d: lambda parameters must be identifiers, not %s\n%s",
-			lineNum, t.Literal(), errLine))
+			lineNum, what, errLine))
 		return nil
 	}
 	if t != nil {
